@@ -561,7 +561,11 @@ struct CppWorld : World {
         c.record = record;
         c.salt = salt;
         c.residue = residue;
-        simrng_reset(simrng_cur(), plan.digest() ^ salt, SIMRNG_RANDOM);
+        // the entropy tape is the SAME in both twin executions: what must not survive a free is what the object was given
+        // or derived from it (keys, nonces, messages); an object that is re-masked or refilled from fresh entropy while
+        // it is cleared holds bytes that depend on the tape only, and those are equal in the twins
+        (void)salt;
+        simrng_reset(simrng_cur(), plan.digest(), SIMRNG_RANDOM);
         int idx = 0;
         int rngdead = (int)plan.knob("rngdead", 99);
         for (const Op &op : plan.ops) {
